@@ -170,7 +170,7 @@ func RunOne(t *testing.T, cfg RunCfg, out string) {
 		simseam.AfterFuncHook = hookAfterFunc
 		simseam.PermHook = hookPerm
 		simseam.NameHook = nameKey
-		s := &Sim{cfg: cfg, c: c, probes: map[string]int{}, faults: map[string]int{}, stateSet: map[uint64]bool{}, confirmDelay: map[string]int{}, graveyard: map[string]*QSpec{}}
+		s := &Sim{cfg: cfg, c: c, probes: map[string]int{}, faults: map[string]int{}, stateSet: map[uint64]bool{}, confirmDelay: map[string]int{}, graveyard: map[string]*QSpec{}, ghosts: map[string]*QSpec{}}
 		s.shim = NewShim(c, cfg.Seed)
 		s.shim.minimal = cfg.Race
 		if cfg.Faults["predicate_flap"] {
